@@ -276,52 +276,49 @@ class Parser:
         t2 = self._assert_and_cunsume(TokenType.BRACKET_RIGHT)
         node.tokens.append(t2)
 
-        t3 = self._assert_and_cunsume(TokenType.BRACKET_LEFT)
-        node.tokens.append(t3)
-
         self._parse_subtree(node)
         root.add_child(node)
 
     def _parse_subtree(self, root: ASTNode) -> None:
-        flag = True  # flag to check if the brachet_left can be consumed
         current = root
         while (token := self.next_token) is not None:
             match token.type:
                 case TokenType.BRACKET_LEFT:
                     self._read_token()
-                    if flag:
-                        flag = False
-                    else:
-                        self._parse_subtree(current)
+                    # look ahead one token to tell a point or a marker
+                    # from a split
+                    if (ahead := self.next_token) is None:
+                        raise AssertionTokenTypeError() from ValueError(
+                            "Unexpected EOF"
+                        )
+
+                    match ahead.type:
+                        case TokenType.FLOAT:
+                            current = self._parse_node(current)
+
+                        case TokenType.LITERAL:
+                            match str.upper(ahead.value):
+                                case "COLOR":
+                                    self._parse_color(current)
+                                case _:
+                                    raise LiteralTokenError(ahead, "COLOR")
+
+                        case _:  # split, alternatives are separated by `|`
+                            self._parse_subtree(current)
+                            self._assert_and_cunsume(TokenType.BRACKET_RIGHT)
 
                 case TokenType.BRACKET_RIGHT:
                     break
 
-                case TokenType.FLOAT:
-                    current = self._parse_node(current)
-                    flag = True
-
-                case TokenType.LITERAL:
-                    match str.upper(token.value):
-                        case "COLOR":
-                            self._parse_color(current)
-                        case _:
-                            raise LiteralTokenError(token, "COLOR")
-
-                    flag = True
-
                 case TokenType.OR:
                     current = root
                     self._read_token()
-                    flag = True
 
                 case TokenType.COMMENT:
                     self._parse_comment(current)
 
                 case _:
-                    excepted = (
-                        "BRACKET_LEFT, BRACKET_RIGHT, LITERAL, FLOAT, OR, COMMENT"
-                    )
+                    excepted = "BRACKET_LEFT, BRACKET_RIGHT, OR, COMMENT"
                     raise TokenTypeError(token, excepted)
 
             current.tokens.append(token)
